@@ -283,6 +283,24 @@ func genC03(r *rng, n int, tier string, emit func(string, ...string)) {
 	// record level: parser and builder with generator-known truth about the declared values
 	genUnmarshalCases(r, n/2, emit, genRopts)
 	genC02(r, n/2, tier, emit)
+	// the builder with a Content-Length the CALLER declared wrongly: off by a few, or at / beyond the limits of the integer
+	// types; spec checking on, no repair that may change the block: it must be reported
+	for i := 0; i < n/30+10; i++ {
+		sub := r.fork()
+		content := sub.bytes(sub.rangeInt(0, 40))
+		cl := pick(sub, []string{"9223372036854775807", "9223372036854775808", "18446744073709551615", "18446744073709551616", "4294967296",
+			strconv.Itoa(len(content) + 1), strconv.Itoa(len(content) + 7), "0"})
+		if cl == strconv.Itoa(len(content)) {
+			cl = "1"
+		}
+		c := bcase{ver: pick(sub, []string{"1.0", "1.1"}), rt0: 4, content: content, class: "declared-length", hdr: [][2]string{
+			{"WARC-Date", "2020-01-02T03:04:05Z"}, {"WARC-Target-URI", "http://example.com/"}, {"Content-Type", "text/plain"}, {"Content-Length", cl}}}
+		o := genRopts(sub)
+		o.spec = sub.rangeInt(1, 2)
+		o.fixsyn, o.fixwf, o.skip = false, false, false
+		stat("build-class", c.class)
+		emit("build", o.String(), c.ver, strconv.Itoa(c.rt0), pairsArg(c.hdr), hx(c.content), hxs(fixedId), oraclesForBuild(c), "w")
+	}
 	for i := 0; i < n/8; i++ {
 		ln := pick(r, []int{0, 1, 54, 55, 56, 57, 63, 64, 65, 110, 111, 112, 113, 119, 120, 127, 128, 129, 200})
 		if r.chance(1, 2) {
